@@ -31,6 +31,8 @@ def specs(ctx):
     for c in (1, 3):
         cfg = dict(sysrun.CFG_SMALL, max_request_concurrency=c)
         s += sysrun.specs_faults(ctx, kinds[:2], seeds=1, cfg=cfg, tag=f'conc{c}')
+    # the request stage's pool refuses a task (create / a part / complete): one more place for a failure
+    s += sysrun.specs_submit_fault(ctx, kinds, seeds=1, nths=(1, 2, 3, 4, 5))
     return s
 
 
